@@ -221,6 +221,62 @@ def gen_fuzz(ctx, seeds):
     return cases
 
 
+
+# ------------------------------------------------------------------------------------ part C: capacities
+def gen_capacity(ctx):
+    """(line, cell, expected) — expected: exact result string, or a predicate on the result"""
+    r = ctx.rng
+    cases = []
+    def add(line, cell, exp):
+        cases.append((line, cell, exp))
+    # RecipientInfo / EnvelopedData: wrapped key length against the caller's capacity (callers pass key[32])
+    for maxlen in (16, 32, 64, 255):
+        for wl in sorted({1, 15, 16, 17, 31, 32, 33, 64, 200, 254, 255, maxlen - 1, maxlen, maxlen + 1}):
+            if 1 <= wl <= 255:
+                add("cap rcpt %d %d" % (wl, maxlen), "cap:rcpt:%s" % ("fits" if wl <= maxlen else "exceeds"),
+                    ("r=1 len=%d ok=1" % wl) if wl <= maxlen else "r=-1")
+    for wl in (1, 15, 16, 17, 31, 32, 33, 34, 48, 64, 128, 200, 254, 255):
+        for two in (0, 1):
+            add("cap env %d %d" % (wl, two), "cap:env:wrapped%s" % ("=16" if wl == 16 else ("<=32" if wl <= 32 else ">32")),
+                "r=1 len=40 ok=1" if wl == 16 else "r=-1")
+    for n in (1, 2, 16, 32, 100, 254, 255):
+        add("cap sm2dec %d %d" % (n, n), "cap:sm2dec:exact-buffer", "r=1 len=%d" % n)
+    for which, cap in (("dec", 366), ("enc", 255)):
+        seqs = [[cap], [cap, 1], [cap + 1], [1] * 5, [100, 100, 100, 100], [cap - 1, 1, 1], [0, cap, 0, 1], [200, 200], [cap // 2, cap // 2, cap // 2]]
+        for _ in range(12):
+            seqs.append([r.choice([0, 1, 7, 50, 100, 200, cap, cap + 1, r.below(cap + 20)]) for _ in range(r.range(1, 6))])
+        for q in seqs:
+            cur, st = 0, []
+            for n in q:
+                if n <= cap - cur:
+                    cur += n; st.append("1")
+                else:
+                    st.append("-1")
+            add("cap sm2upd %s %s" % (which, ",".join(str(n) for n in q)), "cap:sm2upd:%s:%s" % (which, "overflow-attempt" if "-1" in st else "fits"),
+                "r=%s, size=%d" % (",".join(st), cur))
+    for kind in ("cert", "certs", "req", "cms"):
+        for delta in (-200, -2, -1, 0, 1, 100):
+            add("cap pem %s %d" % (kind, delta), "cap:pem:%s:%s" % (kind, "fits" if delta >= 0 else "exceeds"),
+                (lambda o, d=delta: (re.fullmatch(r"need=(\d+) r=1 len=\1", o) is not None) if d >= 0 else (re.fullmatch(r"need=\d+ r=-1", o) is not None)))
+    for n in (1, 2, 3, 8):
+        for delta in (-97, -3, -2, -1, 0, 1):
+            add("cap tlsauth %d %d" % (n, delta), "cap:tlsauth:%s" % ("fits" if delta >= 0 else "exceeds"),
+                (lambda o, d=delta: (re.fullmatch(r"need=(\d+) r=1 len=\1", o) is not None) if d >= 0 else (re.fullmatch(r"need=\d+ r=-1", o) is not None)))
+    for rep in (1, 2, 10, 23, 24, 40, 100, 400):
+        for maxlen in (0, 8, 21, 22, 32, 64, 512, 528):
+            add("cap tlsexts %d %d" % (rep, maxlen), "cap:tlsexts:%s" % ("fits" if 22 * rep + 8 <= maxlen else "exceeds"),
+                (lambda o, rp=rep, mx=maxlen: ("OVER-CAPACITY" not in o) and (not o.startswith("FAULT")) and (o == "r=1 len=22" if (rp == 1 and mx >= 32) else True) and (o.startswith("r=-1") if 22 * rp > mx else True)))
+    for max_ in (1, 3, 4):
+        for cnt in (0, 1, max_ - 1, max_, max_ + 1, max_ + 2, 3 * max_):
+            if cnt >= 0:
+                exp = ("r=1 cnt=%d" % cnt) if cnt <= max_ else "r=-1"
+                if cnt == 0:
+                    exp = lambda o: not o.startswith("FAULT")          # an empty SET / SEQUENCE is refused or accepted by the TLV layer
+                add("cap digalgs %d %d" % (cnt, max_), "cap:digalgs:%s" % ("fits" if cnt <= max_ else "exceeds"), exp)
+                add("cap eku %d %d" % (cnt, max_), "cap:eku:%s" % ("fits" if cnt <= max_ else "exceeds"), exp)
+    return cases
+
+
 def locate(exe, line):
     """re-run one faulting op alone and name the first library frame of the sanitizer report"""
     e = dict(os.environ)
@@ -246,12 +302,12 @@ def run(ctx):
     model, log = core.build_model("C14")
     if model is None:
         ctx.violation("correspondence:model-build", "extracted model does not build: " + log[-500:], {"kind": "correspondence", "log": log[-3000:]}, False)
-        return finish(ctx, 0, 0)
+        return finish(ctx, 0, 0, 0)
     der, log = core.build_harness("C14", "asan")
     fz, log2 = core.build_harness("C06", "asan")
     if der is None or fz is None:
         core.harness_build_failed(ctx, log if der is None else log2)
-        return finish(ctx, 0, 0)
+        return finish(ctx, 0, 0, 0)
     # ---- part A
     casesA = gen_modelled(ctx)
     linesA = [c[0] for c in casesA]
@@ -296,7 +352,30 @@ def run(ctx):
         else:
             ctx.cell(cell + (":ok" if "r=1" in o else ":err"))
     ctx.notes.append("fuzz-only part: %d cases, %d faults" % (len(casesB), nfault))
-    return finish(ctx, len(casesA), len(casesB))
+    # ---- part C: declared / implied capacities
+    casesC = gen_capacity(ctx)
+    cout, _ = core.run_lines(fz, [c[0] for c in casesC], timeout=600)
+    nbadc = 0
+    for (line, cell, exp), o in zip(casesC, cout):
+        ctx.cov["evaluations"] += 1
+        ctx.count("cap:" + line.split(" ")[1])
+        ok = (o == exp) if isinstance(exp, str) else bool(exp(o))
+        if ok and not o.startswith("FAULT"):
+            ctx.cell(cell + (":ok" if "r=1" in o else ":refused"))
+            continue
+        nbadc += 1
+        if o.startswith("FAULT"):
+            where, err = locate(fz, line)
+            key = "cap:" + where
+            text = "capacity case `%s`: the buffer of the declared/implied capacity is overrun (%s)" % (line, where)
+        else:
+            where, err = "", ""
+            key = cell
+            text = "capacity case `%s` answered `%s`, expected %s" % (line, o[:80], exp if isinstance(exp, str) else "(predicate)")
+        ctx.violation(key, text, {"kind": "failing-input", "op": line, "impl": o, "expected": exp if isinstance(exp, str) else "predicate in props/C06/run.py gen_capacity",
+                                  "harness": "props/C06/harness.c", "stderr": err}, found_input=True)
+    ctx.notes.append("capacity part: %d cases, %d bad" % (len(casesC), nbadc))
+    return finish(ctx, len(casesA), len(casesB), len(casesC))
 
 
 def replay(path):
@@ -322,7 +401,7 @@ def replay(path):
     return 0
 
 
-def finish(ctx, na, nb):
+def finish(ctx, na, nb, nc=0):
     modelled = ["lenD", "typD", "netD", "anytD", "anyD", "boolD", "intD", "i32D", "bstrD", "boctD", "bitsD", "nullD", "oidD", "oidderD",
                 "seqintD", "strD/isstr utf8|prn|ia5", "timeD", "sigD", "hexD", "b64blkD", "b64D"]
     fuzz_only = ["x509_cert_from_der/print/get_details/check/verify_by_ca_cert", "x509_certs_get_count/print/verify", "x509_crl_from_der/print/check/find_revoked",
@@ -339,5 +418,8 @@ def finish(ctx, na, nb):
                       rule="part A: per modelled decoder, valid objects + truncation at (sampled) every byte + edits of every TLV length octet / tag + insertions + byte noise + random streams + element counts at capacity-1/capacity/capacity+1; a cell = (op, mutation class, ok|ERR|ABSENT|FAULT) on which implementation and Fixed model agreed.  part B: per fuzz kind and seed object the same mutation classes (TLS records re-framed as tls_record_recv guarantees); a cell = (kind, seed, mutation class, ok|err) that ran without a fault",
                       trusted=core.TRUSTED_COMMON + ["Coq files: Codec/Der.v Hex.v Base64.v Time.v (models), Codec/DerProofs.v SafetyProofs.v HexProofs.v Base64Proofs.v Base64Safety.v TimeProofs.v, Props/Properties_C06.v",
                                                      "props/C14/harness.c + props/C14/driver.ml (modelled ops), props/C06/harness.c (fuzz-only ops), vlib/codec_common.py"],
-                      extra={"modelled_ops": modelled, "fuzz_only_ops": fuzz_only, "modelled_cases": na, "fuzz_only_cases": nb,
+                      extra={"modelled_ops": modelled, "fuzz_only_ops": fuzz_only, "modelled_cases": na, "fuzz_only_cases": nb, "capacity_cases": nc,
+                             "capacity_ops": ["cms_recipient_info_decrypt_from_der(maxlen)", "cms_enveloped_data_decrypt_from_der (key[32])", "sm2_decrypt (exact plaintext buffer)",
+                                              "sm2_decrypt_update / sm2_encrypt_update (sums against 366 / 255)", "x509_cert_from_pem / x509_certs_from_pem / x509_req_from_pem / cms_from_pem (maxlen)",
+                                              "tls_authorities_from_certs(maxlen)", "tls_process_client_hello_exts(maxlen)", "cms_digest_algors_from_der(max)", "x509_ext_key_usage_from_der(max_cnt)"],
                              "fuzz_only_note": "fuzz_only_ops are test support (mutation fuzzing under ASan/UBSan), not covered by any theorem"})
